@@ -187,6 +187,43 @@ class Proxy:
 
 
 
+def upd_by_pre(ls, term):
+    """update record of the loop-carried location whose placeholder is `term`"""
+    if isinstance(term, tuple) and len(term) == 3 and term[0] == 'pre' and term[1] == ls.id:
+        return ls.updates.get(term[2])
+    return None
+
+
+def upd_by_final(ls, final):
+    for u in ls.updates.values():
+        if u.get('final') == final:
+            return u
+    return None
+
+
+def upd_by_loc(ls, lv):
+    for u in ls.updates.values():
+        if u.get('loc') == lv:
+            return u
+    return None
+
+
+def norm_cond(c):
+    """canonical spelling of a condition atom: not(a == b) -> a != b, etc."""
+    if isinstance(c, tuple) and c and c[0] == 'not' and isinstance(c[1], tuple) and c[1]:
+        inner = c[1]
+        flip = {'==': '!=', '!=': '==', '<': '>=', '>=': '<', '>': '<=', '<=': '>'}
+        if inner[0] in flip:
+            return (flip[inner[0]], inner[1], inner[2])
+        if inner[0] == 'not':
+            return norm_cond(inner[1])
+    return c
+
+
+def norm_pc(pc):
+    return frozenset(norm_cond(c) for c in pc)
+
+
 def share(ctx, module, prefix, only=None):
     """Run the rules of another property module as shared rules of this one.  Only the property
     being checked pulls in shared rules; never transitively (the sharing graph has cycles)."""
